@@ -151,6 +151,24 @@ func (seg *Segment) IsAmbiguous(s2 *Segment) bool {
 		(seg.Endpoint == s2.Endpoint && seg.Type == s2.Type && seg.rule == s2.rule && seg.Suffix == s2.Suffix)
 }
 
+// AmbiguousPrefix 判断 seg 是否与 s2 或是 s2 的前半部分存在歧义
+//
+// 树中的节点可能在后缀的中间被拆分，此时 seg 只包含了 s2 后缀的前半部分，
+// 比如 {id}/a 之于 {key}/author，仅用 [Segment.IsAmbiguous] 是无法发现这种歧义的。
+// 返回 s2 的内容中被 seg 覆盖的长度，0 表示两者不存在歧义。
+func (seg *Segment) AmbiguousPrefix(s2 *Segment) int {
+	if seg.IsAmbiguous(s2) {
+		return int(s2.AmbiguousLen())
+	}
+
+	if seg.Type == String || seg.Type != s2.Type || seg.rule != s2.rule ||
+		len(seg.Suffix) >= len(s2.Suffix) || !strings.HasPrefix(s2.Suffix, seg.Suffix) ||
+		(seg.Name == s2.Name && seg.ignoreName == s2.ignoreName) {
+		return 0
+	}
+	return int(s2.AmbiguousLen()) - (len(s2.Suffix) - len(seg.Suffix))
+}
+
 func (seg *Segment) AmbiguousLen() int16 {
 	return seg.ambiguousLength + int16(len(seg.Name))
 }
